@@ -9,9 +9,11 @@
               ER (reals + inf + NaN)      NaN behaviour, neutrality of zero-degree activations;
               any `Num T`                 grouping, type inference, errors.
 
-   FINDING F4: `zero_degree_neutral_statement` (an activation of degree 0 never changes the result) is FALSE of the
-   faithful model: `C10_zero_degree_neutral_refuted`.  What is true: `C10_zero_degree_neutral_new` (z(0) finite)
-   and `C10_zero_degree_neutral_existing` (the name is already there and 0 is the identity of the aggregation). *)
+   FINDING F4 (repaired in /repo: `weighted_sum + np.where(w == 0.0, 0.0, w * z)`, `wcontrib` in the model): an
+   activation of degree 0 never changes the result, whatever its z: `C10_zero_degree_neutral_new` (new name, anywhere),
+   `C10_zero_degree_neutral` (the same with the standard term evaluations), `C10_zero_degree_neutral_existing` (the
+   name is already there and 0 is the identity of the aggregation).  Of the loop WITHOUT the guard (the pinned code
+   before the repair, `wloop_unguarded`) the statement is false: `C10_zero_degree_neutral_unguarded_refuted`. *)
 From Coq Require Import ZArith Reals Bool List String Lra PrimFloat.
 From VF Require Import Num NumR NumER NumF GenNorm GenTerm SpecNorm Core Weighted WeightedProofs.
 Import ListNotations.
@@ -122,27 +124,38 @@ Proof. exact @has_tsukamoto_monotonic. Qed.
 Print Assumptions C10_has_tsukamoto_iff_monotonic.
 
 (* ---- 4. NaN and zero-degree activations, over ER ------------------------------------------------- *)
-(* finite z, non-negative finite weights: NaN exactly when there are no activations or all weights are zero *)
+(* non-negative finite weights, z finite wherever the weight is not zero (`wz_ok`): NaN exactly when there are no
+   activations or all weights are zero *)
 Theorem C10_nan_iff : forall (tm tt : term ER -> ER -> result ER) average ty agg (l : list (activated ER)) this_type zs,
   resolve_type ty l = Ok this_type ->
   group_values tm tt this_type (grouped_terms agg l) = Ok zs ->
-  Forall finite zs ->
-  (forall g, In g (grouped_terms agg l) -> exists r, a_degree g = Fin r /\ 0 <= r) ->
+  Forall2 (fun g z => exists r, a_degree g = Fin r /\ 0 <= r /\ (r <> 0 -> finite z)) (grouped_terms agg l) zs ->
   exists y, weighted_defuzzify tm tt average ty agg l = Ok y /\
             (isnan y = true <-> l = [] \/ forall g, In g (grouped_terms agg l) -> a_degree g = Fin 0).
 Proof. exact nan_iff_ER. Qed.
 Print Assumptions C10_nan_iff.
 
-(* an activation of degree 0 of a new name, inserted anywhere, is neutral WHEN its z(0) is finite *)
+(* an activation of degree 0 of a new name, inserted anywhere, is neutral whatever its z (finite, infinite, NaN) *)
 Theorem C10_zero_degree_neutral_new :
   forall (tm tt : term ER -> ER -> result ER) average ty agg (l1 : list (activated ER)) a l2 this_type z,
   a_degree a = zero ->
   ~ In (act_name a) (names (l1 ++ l2)) ->
   resolve_type ty (l1 ++ a :: l2) = Ok this_type ->
-  term_value tm tt this_type (a_term a) zero = Ok (Fin z) ->
+  term_value tm tt this_type (a_term a) zero = Ok z ->
   weighted_defuzzify tm tt average ty agg (l1 ++ a :: l2) = weighted_defuzzify tm tt average ty agg (l1 ++ l2).
 Proof. exact zero_degree_neutral_new_ER. Qed.
 Print Assumptions C10_zero_degree_neutral_new.
+
+(* the same with the standard term evaluations: the statement that finding F4 contradicted before the repair *)
+Theorem C10_zero_degree_neutral :
+  forall (tbl : @value_table ER) average ty agg (l1 : list (activated ER)) a l2 this_type,
+  a_degree a = zero ->
+  ~ In (act_name a) (names (l1 ++ l2)) ->
+  resolve_type ty (l1 ++ a :: l2) = Ok this_type ->
+  (exists z, term_value (std_membership tbl) std_tsukamoto this_type (a_term a) zero = Ok z) ->
+  std_defuzzify tbl average ty agg (l1 ++ a :: l2) = std_defuzzify tbl average ty agg (l1 ++ l2).
+Proof. exact zero_degree_neutral_std. Qed.
+Print Assumptions C10_zero_degree_neutral.
 
 (* an activation of degree 0 of a name that already occurs (inserted after its first occurrence) is neutral when
    the aggregation is a registered S-norm or none and the degree accumulated so far is in [0,1] *)
@@ -158,29 +171,30 @@ Theorem C10_zero_degree_neutral_existing :
 Proof. exact zero_degree_neutral_existing_ER. Qed.
 Print Assumptions C10_zero_degree_neutral_existing.
 
-(* FINDING F4.  The unconditional statement is false: Ramp("a", 0, 1) activated at 0.5 defuzzifies to 0.5;
-   adding Concave("b", 0, 1) with degree 0 makes it NaN, because Concave.tsukamoto(0) = -inf and 0 * -inf = NaN. *)
-Theorem C10_zero_degree_neutral_refuted : ~ zero_degree_neutral_statement.
-Proof. exact zero_degree_neutral_refuted. Qed.
-Print Assumptions C10_zero_degree_neutral_refuted.
+(* the witness of finding F4 on the model as it is now: Ramp("a", 0, 1) at 0.5 and Concave("b", 0, 1) at degree 0,
+   whose tsukamoto(0) is -inf: the result stays 0.5 (average) / 0.25 (sum); over ER and on binary64 by computation *)
+Theorem C10_F4_witness_repaired :
+  std_tsukamoto (a_term w_concave) zero = Ok NInf /\
+  std_defuzzify [] true WAutomatic None [w_ramp; w_concave] = Ok (Fin (1/2)) /\
+  std_defuzzify [] false WAutomatic None [w_ramp; w_concave] = Ok (Fin (1/4)) /\
+  res_feq (fdefuzz true [f_ramp; f_concave]) 0.5%float = true /\
+  res_feq (fdefuzz false [f_ramp; f_concave]) 0.25%float = true.
+Proof. exact (conj w_concave_z0 (conj w_avg_after (conj w_sum_after (conj f_avg_after f_sum_after)))). Qed.
+Print Assumptions C10_F4_witness_repaired.
 
-Theorem C10_zero_degree_neutral_refuted_witness :
-  exists (l : list (activated ER)) (a : activated ER) (average : bool),
-    a_degree a = zero /\ ~ In (act_name a) (names l) /\
-    resolve_type WAutomatic (l ++ [a]) = Ok WTsukamoto /\
-    std_tsukamoto (a_term a) zero = Ok NInf /\
-    std_defuzzify [] average WAutomatic None l = Ok (Fin (1/2)) /\
-    std_defuzzify [] average WAutomatic None (l ++ [a]) = Ok NaN.
-Proof. exact zero_degree_neutral_refuted_exists. Qed.
-Print Assumptions C10_zero_degree_neutral_refuted_witness.
-
-(* the same witness on binary64, by computation: 0.5 before, NaN after (average and sum) *)
-Theorem C10_zero_degree_neutral_refuted_float :
-  res_feq (fdefuzz true [f_ramp]) 0.5%float = true /\
-  res_feq (fdefuzz true [f_ramp; f_concave]) PrimFloat.nan = true /\
-  res_feq (fdefuzz false [f_ramp; f_concave]) PrimFloat.nan = true.
-Proof. exact (conj f_avg_before (conj f_avg_after f_sum_after)). Qed.
-Print Assumptions C10_zero_degree_neutral_refuted_float.
+(* the loop without the guard (`weighted_sum + w * z`, the pinned code before the repair) does NOT have the property:
+   the same output gives NaN, because 0 * -inf = NaN *)
+Theorem C10_zero_degree_neutral_unguarded_refuted : ~ zero_degree_neutral_for std_defuzzify_unguarded.
+Proof. exact zero_degree_neutral_unguarded_refuted. Qed.
+Print Assumptions C10_zero_degree_neutral_unguarded_refuted.
+Theorem C10_F4_witness_unguarded :
+  std_defuzzify_unguarded [] true WAutomatic None [w_ramp] = Ok (Fin (1/2)) /\
+  std_defuzzify_unguarded [] true WAutomatic None [w_ramp; w_concave] = Ok NaN /\
+  std_defuzzify_unguarded [] false WAutomatic None [w_ramp; w_concave] = Ok NaN /\
+  res_feq (fdefuzz_unguarded true [f_ramp; f_concave]) PrimFloat.nan = true /\
+  res_feq (fdefuzz_unguarded false [f_ramp; f_concave]) PrimFloat.nan = true.
+Proof. exact (conj u_avg_before (conj u_avg_after (conj u_sum_after (conj fu_avg_after fu_sum_after)))). Qed.
+Print Assumptions C10_F4_witness_unguarded.
 
 (* ---- 5. non-vacuity ------------------------------------------------------------------------------ *)
 Definition cst (n : string) (c d : R) : activated R :=
@@ -188,6 +202,9 @@ Definition cst (n : string) (c d : R) : activated R :=
 Definition ex_l : list (activated R) := [cst "a" 1 (1/4); cst "b" 3 (1/2); cst "a" 7 (1/4)].
 
 Ltac r_cbv := cbv - [Rplus Rmult Rminus Ropp Rdiv Rinv IZR Rlt Rle Rlt_dec Rle_dec Req_EM_T].
+(* decide the guards `w == 0.0` of the loop *)
+Ltac r_step :=
+  match goal with |- context [Req_EM_T ?a ?b] => destruct (Req_EM_T a b); try (exfalso; lra) end; cbv iota beta.
 
 (* hypotheses of wavg_spec / wsum_spec / between_constants are met by a grouped output (two activations of "a",
    the second with ANOTHER constant that is ignored: the group keeps the first term) *)
@@ -198,9 +215,9 @@ Example C10_ex_hypotheses :
   sum_w (grouped_terms None ex_l) = 1 /\ sum_wz (grouped_terms None ex_l) [1; 3] = 2.
 Proof. repeat split; r_cbv; lra. Qed.
 Example C10_ex_wavg : weighted_average (std_membership []) std_tsukamoto WAutomatic None ex_l = Ok 2.
-Proof. r_cbv. f_equal. field. Qed.
+Proof. r_cbv. repeat r_step. f_equal. field. Qed.
 Example C10_ex_wsum : weighted_sum (std_membership []) std_tsukamoto WAutomatic None ex_l = Ok 2.
-Proof. r_cbv. f_equal. field. Qed.
+Proof. r_cbv. repeat r_step. f_equal. field. Qed.
 
 (* the non-commutative harness operator: the order of the occurrences matters, 1/2 then 1 gives 11/16 *)
 Example C10_ex_grouping_order :
@@ -227,21 +244,31 @@ Example C10_ex_tsukamoto_on_triangle :
   weighted_average (std_membership []) std_tsukamoto WTsukamoto None [rmp "r" (1/2); tri "t" (1/2)] = Err ERuntime.
 Proof. reflexivity. Qed.
 
-(* ER: empty and all-zero outputs are NaN, anything else with finite z is not; a Ramp (z(0) = start, finite) of
-   degree 0 is neutral *)
-Definition rmpE (n : string) (d : ER) : activated ER :=
-  {| a_term := TShape n (Sh_Ramp (Fin 0) (Fin 1) (Fin 1)); a_degree := d; a_implication := None |}.
+(* ER: the empty output is NaN; a zero-degree Concave (z(0) = -inf) of a new name is neutral: the hypotheses of
+   C10_zero_degree_neutral_new are met by the F4 witness *)
 Example C10_ex_nan_empty : std_defuzzify ([] : @value_table ER) true WAutomatic None [] = Ok NaN.
 Proof. reflexivity. Qed.
-Example C10_ex_ramp_z0_finite : term_value (std_membership []) std_tsukamoto WTsukamoto (a_term (rmpE "q" zero)) zero = Ok (Fin 0).
-Proof.
-  cbv - [Rplus Rmult Rminus Ropp Rdiv Rinv IZR Req_EM_T Rlt_dec Rle_dec Rlt Rle].
-  destruct (Req_EM_T 1 0); [exfalso; lra|]. f_equal. f_equal. field.
-Qed.
 Example C10_ex_neutral_instance :
-  std_defuzzify [] true WAutomatic None [w_ramp; rmpE "q" zero] = std_defuzzify [] true WAutomatic None [w_ramp].
+  std_defuzzify [] true WAutomatic None [w_ramp; w_concave] = std_defuzzify [] true WAutomatic None [w_ramp].
 Proof.
-  apply (zero_degree_neutral_new_ER (std_membership []) std_tsukamoto true WAutomatic None [w_ramp] (rmpE "q" zero) []
-           (this_type := WTsukamoto) (z := 0)); [reflexivity| |reflexivity|exact C10_ex_ramp_z0_finite].
+  apply (zero_degree_neutral_new_ER (std_membership []) std_tsukamoto true WAutomatic None [w_ramp] w_concave []
+           (this_type := WTsukamoto) (z := NInf)); [reflexivity| |reflexivity|exact w_concave_z0].
   cbn. intros [H|[]]. discriminate.
+Qed.
+(* hypotheses of C10_nan_iff met by an output whose zero-weight group has an infinite z *)
+Example C10_ex_nan_iff_hypotheses :
+  group_values (std_membership []) std_tsukamoto WTsukamoto (grouped_terms None [w_ramp; w_concave]) = Ok [Fin (1/2); NInf] /\
+  Forall2 (fun g z => exists r, a_degree g = Fin r /\ 0 <= r /\ (r <> 0 -> finite z)) (grouped_terms None [w_ramp; w_concave]) [Fin (1/2); NInf].
+Proof.
+  split.
+  - cbv - [Rplus Rmult Rminus Ropp Rdiv Rinv IZR Req_EM_T Rlt_dec Rle_dec Rlt Rle].
+    repeat (match goal with
+            | |- context [Req_EM_T ?a ?b] => destruct (Req_EM_T a b); try (exfalso; lra)
+            | |- context [Rlt_dec ?a ?b] => destruct (Rlt_dec a b); try (exfalso; lra)
+            end; cbv iota beta).
+    f_equal. f_equal. f_equal. field.
+  - change (grouped_terms None [w_ramp; w_concave]) with [new_group w_ramp; new_group w_concave].
+    constructor; [|constructor; [|constructor]].
+    + exists (1/2). split; [reflexivity|]. split; [lra|]. intros _. now exists (1/2).
+    + exists 0. split; [reflexivity|]. split; [lra|]. intros H. now contradiction H.
 Qed.
